@@ -135,3 +135,48 @@ Example C12_reward_nonvacuous :
   forallb accr_nonneg ops = true /\ results astr_ex g_ex1 ops = [true; true; true; true; false; true] /\
   rew s 0%N = 0 /\ taken s 0%N = 9.
 Proof. vm_compute. auto. Qed.
+
+(* ---------------- reachability of the collision trigger ---------------- *)
+
+(* which keys does the scan of block h visit?  Proved on the key STRINGS (lexicographic range test,
+   Rangefix, decimal rendering): the pending-undelegation scan visits (n, a) only if n = h or the
+   decimal string of n properly extends that of h, which forces n >= 10 h; the reward scan, whose
+   prefix ends in the separator, is exact. *)
+Theorem C12_undelegation_scan_visits : forall astr h n a,
+  scan_und astr h n a = true -> (n = h \/ 10 * h <= n)%N.
+Proof. exact scan_und_char. Qed.
+Print Assumptions C12_undelegation_scan_visits.
+
+Theorem C12_reward_scan_exact : forall astr h n a, scan_rw astr h n a = true -> n = h.
+Proof. exact scan_rw_exact. Qed.
+Print Assumptions C12_reward_scan_exact.
+
+(* chains whose pending undelegations all stem from transactions (genesis without pending entries)
+   are NOT exposed while the maturity period is at most 18: for every such genesis and every history
+   (histories start with a BeginBlock) no scan ever collides ... *)
+Theorem C12_no_collision_from_empty_genesis_k_le_18 : forall astr k b pl ac rw rp accr ops,
+  (k <= 18)%N ->
+  trig_collision astr (genesis k b pl ac ∅ rw rp) (Begin accr :: ops) = false.
+Proof. exact no_collision_from_empty_genesis. Qed.
+Print Assumptions C12_no_collision_from_empty_genesis_k_le_18.
+
+(* ... hence the FULL paid-once statement holds for them *)
+Theorem C12_paid_once_from_empty_genesis_k_le_18 : forall astr k b pl ac rw rp accr ops,
+  (1 <= k <= 18)%N ->
+  let s := run astr (genesis k b pl ac ∅ rw rp) (Begin accr :: ops) in
+  forall n a,
+    ((1 <= n <= height s)%N -> paid s n a = und s n a) /\
+    ((height s < n)%N -> paid s n a = 0 /\ pget (pend s) n a = und s n a).
+Proof. exact paid_once_from_empty_genesis. Qed.
+Print Assumptions C12_paid_once_from_empty_genesis_k_le_18.
+
+(* tie to the source: the maturity period written at InitChain is the hard-coded constant 4 <= 18 *)
+Theorem C12_fact_maturity_constant :
+  netdeleg_RewardsMaturityTime = 4 /\ (Z.to_N netdeleg_RewardsMaturityTime <= 18)%N.
+Proof. vm_compute. split; [reflexivity | discriminate]. Qed.
+
+(* the bound is sharp: with k = 19 an undelegation at height 1 (key 20) is visited at height 2 *)
+Example C12_tx_collision_k19 :
+  trig_collision astr_ex (genesis 19 (fun _ => 1000) 0 ∅ ∅ (fun _ => 0) ∅)
+                 [Begin []; Delegate 0%N 10 1; Undelegate 0%N 4 1; Begin []] = true.
+Proof. vm_compute. reflexivity. Qed.
